@@ -7,7 +7,8 @@ spec = {
               "kwargs"|"return", "gen": bool,
               # optional (C06/C17 streams): "mem_out": bool — an in-memory PythonNode product `mem<id>`; "mem_in": [producer id…] —
               # in-memory dependencies on those products; "pyhash_deps": [node…] ⊆ deps — declared as PythonNode(value=<content of
-              # data/n<node>.txt at import>, hash=True) instead of a path node; "gen_marks": [marker…] on the child of a generator
+              # data/n<node>.txt at import>, hash=True) instead of a path node; "gen_marks": [marker…] on the child of a generator;
+              # "gen_child_deps": [node…] — dependencies (path nodes) of that child
               } ],
   "versions": {module: int},
   "inputs": {node: int}          # initial contents of non-product files
@@ -397,8 +398,10 @@ def render_module(spec, m: int, src_value=None) -> str:
             for mk in t.get("gen_marks", []):            # optional: markers on the generated task
                 L.append(f"    @pytask.mark.{mk}")
             L.append(f"    @task(name={tname(kid)!r})")
-            L.append(f"    def _kid(produces: Path = DATA / 'n{7000 + tid}.txt'):")
-            L.append(f"        return rt.body({kid}, SRC, [], [produces], 'ok', ret=None)")
+            kdeps = t.get("gen_child_deps", [])          # optional: the generated task consumes these nodes
+            kparams = [f"k{n}: Path = DATA / 'n{n}.txt'" for n in kdeps] + [f"produces: Path = DATA / 'n{7000 + tid}.txt'"]
+            L.append(f"    def _kid({', '.join(kparams)}):")
+            L.append(f"        return rt.body({kid}, SRC, [{', '.join(f'k{n}' for n in kdeps)}], [produces], 'ok', ret=None)")
         else:
             L.append(f"    return rt.body({tid}, SRC, [{', '.join(body_deps)}], {body_prods}, {body_beh!r}, ret={ret!r}{dirs_arg})")
         L.append("")
